@@ -637,6 +637,10 @@ def _generators(L, repo, ref):
             if isinstance(stn, ast.AugAssign) and canon(stn.target) == bufname and isinstance(stn.op, ast.Add):
                 v = stn.value
                 if canon(v).endswith(".seq"):
+                    # the default may be drawn inside the expression (`(self.get_rand_tsc(BT) if tsc is None else tsc).seq`)
+                    for c in calls_in(v):
+                        if canon(c.func).endswith("get_rand_tsc") and c.args:
+                            ts_bt = canon(c.args[0]).split(".")[-1]
                     ts_at = off
                     off += ref["offsets"][bt]["len"]
                     continue
@@ -659,6 +663,8 @@ def _generators(L, repo, ref):
         L.require("C10.R3", FR, "RandBurstGen." + meth, "%s burst: the training sequence starts where pick() looks for it" % bt,
                   ref["offsets"][bt]["start"], ts_at)
         L.require("C10.R3", FR, "RandBurstGen." + meth, "%s burst has 148 bits" % bt, ref["burst_len"], off)
+        if ts_bt is None:
+            raise AnalysisError("RandBurstGen.%s: where the default training sequence is drawn from is not recognised" % meth)
         L.require("C10.R3", FR, "RandBurstGen." + meth, "default training sequence is drawn from the %s sequences" % bt, bt, ts_bt)
 
 
@@ -672,3 +678,5 @@ def run(L, tier):
     L.stage(memo_sound, L, repo, "C10.R6", ("fake_trx", "transceiver", "rand_burst_gen"))
     from pyutil import hdr_ver_ownership
     L.stage(hdr_ver_ownership, L, repo, "C10.R7")
+    from cmdfold import sim_cmd_effects
+    L.stage(sim_cmd_effects, L, repo, "C10.R8")
